@@ -1,6 +1,7 @@
 // C50 — ACME client HTTP layer: nonce pool, retry loop, backoff, context cancellation.
 //
-//	http nurl= kid= bo= cancel= calls=D,R,O,A,G,N resp=<status>:<problem type>:<nonce>,…|x
+//	http nurl= kid= bo= cancel= calls=D,R,O,A,G,N resp=<status>:<problem type>:<Replay-Nonce fields>,…|x|c
+//	    Replay-Nonce fields: - = no header, else the field values joined by + (~ = empty value, . = a blank)
 //	    an acme.Client whose HTTPClient is an in-process scripted RoundTripper (one scripted reply per
 //	    request that reaches it, then 418s), a RetryBackoff that allows `bo` retries and cancels the
 //	    shared context on its `cancel`-th call; the public calls are made in order.
@@ -49,7 +50,7 @@ type reply struct {
 	cancel bool // slow reply: the caller's context is cancelled while the round trip is outstanding
 	status int
 	prob   string
-	nonce  string
+	nonce  []string // Replay-Nonce header fields, in order
 }
 
 type server struct {
@@ -78,7 +79,7 @@ func (s *server) RoundTrip(req *http.Request) (*http.Response, error) {
 		}
 		json.Unmarshal(hb, &head)
 		if head.Nonce != "" {
-			nonce = head.Nonce
+			nonce = strings.ReplaceAll(head.Nonce, " ", ".")
 		}
 		switch {
 		case head.KID != "" && head.JWK == nil:
@@ -103,8 +104,8 @@ func (s *server) RoundTrip(req *http.Request) (*http.Response, error) {
 		return nil, req.Context().Err()
 	}
 	h := http.Header{}
-	if r.nonce != "" {
-		h.Set("Replay-Nonce", r.nonce)
+	for _, v := range r.nonce {
+		h.Add("Replay-Nonce", v)
 	}
 	body := "{}"
 	switch {
@@ -174,7 +175,16 @@ func execHTTP(o hx.Op) string {
 			}
 			return s
 		}
-		srv.script = append(srv.script, reply{status: st, prob: un(strings.Join(f[1:len(f)-1], ":")), nonce: un(f[len(f)-1])})
+		var hdr []string
+		if nf := f[len(f)-1]; nf != "-" {
+			for _, v := range strings.Split(nf, "+") {
+				if v == "~" {
+					v = ""
+				}
+				hdr = append(hdr, strings.ReplaceAll(v, ".", " "))
+			}
+		}
+		srv.script = append(srv.script, reply{status: st, prob: un(strings.Join(f[1:len(f)-1], ":")), nonce: hdr})
 	}
 	ctx, cancel := context.WithCancel(context.Background())
 	defer cancel()
@@ -233,11 +243,16 @@ func execPool(o hx.Op) string {
 			sort.Strings(d)
 			drains = append(drains, hx.JoinStrs(d))
 		case strings.HasPrefix(op, "a:"):
-			v := op[2:]
-			if v == "-" {
-				v = ""
+			var fields []string
+			if v := op[2:]; v != "-" {
+				for _, f := range strings.Split(v, "+") {
+					if f == "~" {
+						f = ""
+					}
+					fields = append(fields, f)
+				}
 			}
-			acme.VerifAddNonce(c, v)
+			acme.VerifAddNonceFields(c, fields)
 		default:
 			return "bad-op"
 		}
@@ -360,6 +375,33 @@ func genHTTP(g *hx.Gen) {
 		default:
 			g.Stat("reply.no-nonce")
 		}
+		// header shapes: present but empty, several fields, blanks around the value
+		if r.Chance(1, 6) {
+			switch r.Intn(7) {
+			case 0:
+				nonce = "~"
+				g.Stat("reply.nonce-header-empty")
+			case 1:
+				nonce = "~+" + fresh()
+				g.Stat("reply.nonce-header-empty-then-value")
+			case 2:
+				nonce = fresh() + "+~"
+				g.Stat("reply.nonce-header-value-then-empty")
+			case 3:
+				nonce = fresh() + "+" + fresh()
+				g.Stat("reply.nonce-header-two-values")
+			case 4:
+				v := fresh()
+				nonce = v + "+" + v
+				g.Stat("reply.nonce-header-same-value-twice")
+			case 5:
+				nonce = "." + fresh() + "."
+				g.Stat("reply.nonce-header-blanks-around-value")
+			default:
+				nonce = "~+~"
+				g.Stat("reply.nonce-header-empty")
+			}
+		}
 		resp = append(resp, fmt.Sprintf("%d:%s:%s", status, prob, nonce))
 	}
 	bo := hx.Pick(r, []int{0, 1, 1, 2, 3, 5, 8})
@@ -402,7 +444,8 @@ func genPool(g *hx.Gen) {
 		case c < 2:
 			ops = append(ops, "d")
 		case c < 3:
-			ops = append(ops, "a:-")
+			ops = append(ops, hx.Pick(r, []string{"a:-", "a:~", "a:~+x1", "a:x2+~", "a:x3+x4", "a:~+~"}))
+			g.Stat("pool.header-shapes")
 		default:
 			ops = append(ops, fmt.Sprintf("a:v%d", r.Intn(dom)))
 		}
